@@ -1,3 +1,4 @@
 import YataDriver.Util
 import YataDriver.Window
 import YataDriver.Methods
+import YataDriver.SpecEval
